@@ -160,6 +160,56 @@ def backend_flags(b):
         return ['--external-sat-solver', 'kissat']
     raise ValueError(b)
 
+def run_native_group(g, gdir, res):
+    """route "native": a concrete scenario run against the command-line tool built (ASan/UBSan) from the tree under check.
+    Used only to re-confirm KNOWN FINDINGS whose observable is the file system after a process run, which no contract in
+    this framework expresses (kernel path resolution).  Never counted as proof; exit 1 of the driver = the scenario's
+    obligation FAILED, 0 = it held, anything else = undecided."""
+    t0 = time.time()
+    lha = os.path.join(gdir, 'lha_native')
+    cfg = os.path.join(gdir, 'cfg'); os.makedirs(cfg, exist_ok=True)
+    if os.path.exists(os.path.join(REPO, 'config.h')):
+        shutil.copyfile(os.path.join(REPO, 'config.h'), os.path.join(cfg, 'config.h'))
+    else:
+        open(os.path.join(cfg, 'config.h'), 'w').write('#define PACKAGE_STRING "Lhasa"\n')
+    srcs = []
+    for sub in ('lib', 'src'):
+        for fn in sorted(os.listdir(os.path.join(REPO, sub))):
+            if fn.endswith('.c') and fn not in ('bit_stream_reader.c', 'lh_new_decoder.c', 'pma_common.c', 'tree_decode.c', 'lha_arch_win32.c'):
+                srcs.append(os.path.join(REPO, sub, fn))
+    cmd = ['cc', '-O1', '-g', '-DHAVE_CONFIG_H', '-I', cfg, '-I', REPO, '-I', os.path.join(REPO, 'lib'), '-I', os.path.join(REPO, 'lib', 'public'),
+           '-I', os.path.join(REPO, 'src')] + srcs + ['-o', lha]
+    rc, out, t = run_cmd(cmd, 300, 8)
+    if rc != 0:
+        res['reason'] = 'native build of the command-line tool failed: ' + out[-600:]
+        return res
+    drv = os.path.join(gdir, 'drv')
+    rc, out, t = run_cmd(['cc', '-O1', '-g', os.path.join(VERIF, 'replay', 'drv_%s.c' % g['driver']), '-o', drv], 120, 4)
+    if rc != 0:
+        res['reason'] = 'native build of the scenario driver failed: ' + out[-600:]
+        return res
+    work = os.path.join(gdir, 'work'); os.makedirs(work, exist_ok=True)
+    rc, out, t = run_cmd([drv, lha, work], g['timeout'], 4)
+    res['build_s'] = time.time() - t0 - t
+    res['solver_s'] = t
+    res['backend'] = 'native'
+    res['cmd'] = 'cc <lib/*.c src/*.c of the tree under check> -o lha_native ; cc replay/drv_%s.c -o drv ; drv lha_native <work dir>' % g['driver']
+    ob = dict(name=g['id'] + '.scenario.1', desc=g.get('obligation', 'native scenario'), status='SUCCESS' if rc == 0 else 'FAILURE',
+              file='replay/drv_%s.c' % g['driver'], line=None, function='main', trace=None)
+    res['obligations'] = [ob]
+    res['n_real'] = 1
+    res['n_canary'] = 0
+    res['native_output'] = out[-1500:]
+    if rc == 0:
+        res['status'] = 'ok'
+    elif rc == 1:
+        res['status'] = 'fail'
+        res['failed'] = [dict(name=ob['name'], desc=ob['desc'], file=ob['file'], line=None, function='main')]
+        res['reason'] = 'FAILURE: %s (%s)' % (ob['name'], ob['desc'])
+    else:
+        res['reason'] = 'scenario driver could not run (rc=%s): %s' % (rc, out[-400:])
+    return res
+
 def run_group(g, woven, scratch, want_trace=False):
     """Returns dict: status ok|fail|undecided, obligations[], reason, times."""
     gid = g['id']
@@ -168,6 +218,8 @@ def run_group(g, woven, scratch, want_trace=False):
     res = dict(id=gid, status='undecided', reason='', obligations=[], solver_s=0.0, build_s=0.0,
                backend=None, level=g['level'], functions=g['functions'], props=g['props'],
                bound=g.get('bound'), supplementary=g.get('supplementary', False), route=g['route'], enforce=g.get('enforce'), replace=g['replace'])
+    if g['route'] == 'native':
+        return run_native_group(g, gdir, res)
     harness = os.path.join(VERIF, g['harness'])
     entry = g['entry']
     a_gb = os.path.join(gdir, 'a.gb')
